@@ -49,6 +49,14 @@ FIXED_CORPUS = [
 ]
 
 
+def translate(ctx):
+    # Model/Names.lean (C17) reads the naming-convention tables regenerated from the current /repo tree
+    from translate import conventions
+    import importlib
+    importlib.reload(conventions)
+    conventions.translate(core.REPO)
+
+
 # ------------------------------------------------------------------ generators
 
 def gen_case(rng, big=False, file=False):
@@ -301,6 +309,8 @@ def decode(line):
     r.map = dict((dec_name(tok()), dec_name(tok())) for _ in range(int(tok())))
     assert tok() == 'F'
     r.regen = tok()
+    assert tok() == 'H'
+    r.lines = tok()
     return r
 
 
@@ -369,8 +379,8 @@ def file_tolerance(rec, scale0):
 
 def gen_cases(ctx, rng, scale=1.0):
     cases = [dict(c) for c in FIXED_CORPUS]
-    n_mem = int(ctx.n(90, 2000) * scale)
-    n_file = int(ctx.n(25, 500) * scale)
+    n_mem = int(ctx.n(200, 3000) * scale)
+    n_file = int(ctx.n(50, 600) * scale)
     for i in range(n_mem):
         cases.append(gen_case(rng, big=(i % 30 == 7)))
     for i in range(n_file):
@@ -422,6 +432,10 @@ def run(ctx, scale=1.0, oracle_only=False):
                 res.disagreements.append(dict(facet='rectgeo', case=dict(rec, variant=tag), model=d[:300], impl='(see model field: first difference)'))
             if r.exc is None:
                 res.count('model-rotation:' + ('exact' if r.exact else 'approximated norm'))
+                for k, bit in enumerate(r.lines):
+                    h = res.hyp.setdefault('isLine (unique candidate at every step) on the direction-%d spacing track' % (k + 1), [0, 0])
+                    h[0] += 1 if bit == '1' else 0
+                    h[1] += 1
                 if True:
                     h = res.hyp.setdefault('model: fromgeo(rectgeo(T), blockmap) regenerates T (names, volumes, connections; in-memory cases, 1e-9)', [0, 0])
                     if tag == 'mem':
